@@ -706,6 +706,105 @@ def r7(k: Kit) -> None:
     ])
 
 
+def kex_handler_tables(k: Kit):
+    """(class, handler name, FuncInfo) for every row of every
+    _packet_handlers table of a key exchange class; the handler is looked
+    up through the MRO of the class that owns the table."""
+    idx = k.idx
+    out = []
+
+    def table(cls):
+        for st in cls.node.body:
+            tgt = None
+            if isinstance(st, ast.Assign) and len(st.targets) == 1:
+                tgt, val = st.targets[0], st.value
+            elif isinstance(st, ast.AnnAssign):
+                tgt, val = st.target, st.value
+            if isinstance(tgt, ast.Name) and tgt.id == '_packet_handlers' \
+                    and isinstance(val, ast.Dict):
+                return val
+        return None
+
+    for ms in ('kex_dh', 'kex_rsa'):
+        mod = idx.module(ms)
+        for cls in mod.classes.values():
+            val = None
+            for c in idx.mro(cls):
+                val = table(c)
+                if val is not None:
+                    break
+            if val is None:
+                continue
+            for v in val.values:
+                nm = v.attr if isinstance(v, ast.Attribute) else \
+                    v.id if isinstance(v, ast.Name) else None
+                fi = idx.lookup_method(cls, nm) if nm else None
+                out.append((cls, nm or unparse(v), fi))
+    return out
+
+
+def r8(k: Kit) -> None:
+    """Trailing bytes in a kex message: only the parsed fields are hashed,
+    so the end-of-packet check is what binds the rest of the message."""
+    rep = k.rep
+    idx = k.idx
+    rep.rule('C03.R8', 'for every row of every _packet_handlers table of a '
+             'key exchange class, with self-calls resolved through that '
+             'class\'s MRO: every normal path through the handler passes '
+             'packet.check_end() (directly or in a parser it hands the '
+             'packet to) - bytes after the parsed fields are not in H')
+
+    def ends(cls, fi, depth=0) -> Optional[List[str]]:
+        g = k.cfg(fi)
+        hits = []
+        for n in g.nodes:
+            for c in g.calls_at(n):
+                if is_call(c, 'check_end', 'packet'):
+                    hits.append(n.id)
+                elif depth < 3 and isinstance(c.func, ast.Attribute) and \
+                        dotted(c.func.value) == 'self' and \
+                        any(dotted(a) == 'packet' for a in c.args):
+                    sub = idx.lookup_method(cls, c.func.attr)
+                    if sub is not None and 'packet' in sub.params and \
+                            ends(cls, sub, depth + 1) is None:
+                        hits.append(n.id)
+        w = g.must_pass(hits, follow_exc=False)
+        return g.describe_path(w) if w else None
+
+    rows = kex_handler_tables(k)
+    rep.floor('C03.R8', 'kex handler table rows', len(rows), 31)
+    for cls, nm, fi in rows:
+        if fi is None:
+            rep.violation('C03.R8', f'{cls.qual}|{nm}', 'handler not found')
+            continue
+        w = ends(cls, fi)
+        rep.check(w is None, 'C03.R8',
+                  f'{cls.qual}|{nm} checks end of packet',
+                  'every normal path passes packet.check_end()',
+                  f'{nm} as dispatched for {cls.qual} can finish without '
+                  'packet.check_end(): bytes appended to this cleartext '
+                  'handshake message are neither hashed nor refused',
+                  fi.loc(), w)
+
+
+def r9(k: Kit) -> None:
+    """The key that verifies H is one the trust configuration accepts."""
+    from .c04 import r1 as c04r1
+    rep = k.rep
+    rep.rule('C03.R9', 'the host key (or certificate) presented in the '
+             'cleartext reply is accepted only through the trust decision '
+             'tables of C04.R1 (trusted / revoked / CA sets, certificate '
+             'validated for the host): a substituted host key or a '
+             'certificate minted by an unknown CA aborts the handshake '
+             'whenever host key checking is on - an empty CA set is not '
+             '"checking off"')
+    before = len(rep.obligations)
+    c04r1(k)
+    for o in rep.obligations[before:]:
+        o.rule = 'C03.R9'
+    rep.floor('C03.R9', 'trust table rows', len(rep.obligations) - before, 6)
+
+
 def run(idx, rep, tier):
     k = Kit(idx, rep)
     rep.assumptions += NOT_DECIDED
@@ -721,3 +820,5 @@ def run(idx, rep, tier):
     r5(k)
     r6(k)
     r7(k)
+    r8(k)
+    r9(k)
